@@ -2,6 +2,7 @@ package core
 
 import (
 	"encoding/json"
+	"regexp"
 	"fmt"
 	"os"
 	"os/exec"
@@ -341,6 +342,9 @@ type Options struct {
 func Run(p *Property, o Options) int {
 	t0 := time.Now()
 	thorough := o.Tier == "thorough"
+	// theorems are discovered from the property's own Lean files (Props/Cxx.lean holds
+	// property theorems only); names listed explicitly in the registration are required.
+	p.Theorems = mergeNames(p.Theorems, discoverTheorems(p.PropsModule))
 	root := VerifRoot()
 	var broken []Broken
 	var notes []string
@@ -736,4 +740,39 @@ func runIn(dir string, name string, args ...string) (bool, string) {
 	cmd.Dir = dir
 	out, err := cmd.CombinedOutput()
 	return err == nil, string(out)
+}
+
+var reTheorem = regexp.MustCompile(`(?m)^theorem\s+([A-Za-z0-9_'.]+)`)
+var reNamespace = regexp.MustCompile(`(?m)^namespace\s+(\S+)`)
+
+func discoverTheorems(module string) []string {
+	if module == "" {
+		return nil
+	}
+	path := filepath.Join(LeanDir(), strings.ReplaceAll(module, ".", "/")+".lean")
+	data, err := os.ReadFile(path)
+	if err != nil {
+		return nil
+	}
+	ns := ""
+	if m := reNamespace.FindSubmatch(data); m != nil {
+		ns = string(m[1]) + "."
+	}
+	var out []string
+	for _, m := range reTheorem.FindAllSubmatch(data, -1) {
+		out = append(out, ns+string(m[1]))
+	}
+	return out
+}
+
+func mergeNames(a, b []string) []string {
+	seen := map[string]bool{}
+	var out []string
+	for _, x := range append(append([]string{}, a...), b...) {
+		if !seen[x] {
+			seen[x] = true
+			out = append(out, x)
+		}
+	}
+	return out
 }
